@@ -68,3 +68,8 @@ claim("C19",
  "Static lockset analysis over gengine's own shared state: one obligation per (shared field, accessing function, read/write) against a guarded-by table whose completeness is checked on every run (every field of the engine, builder, context and iter packages that is stored to after construction must be listed). Obligations are discharged by the guarding mutex held at the access (must-hold dataflow, deferred unlocks, one-level caller summaries), by construction, by immutability after construction, by ownership between pop and put, or by a local mutex for variables written inside goroutines. The 49 undischarged obligations of today's tree are exactly the recorded findings D12(b) (gp.clear / gp.execModel read by the request path without updateLock) and D12(c) (executions read the published RuleBuilder.Kc pointer without synchronisation); they are printed as KNOWN-FINDING and any other unguarded access is a VIOLATION. Right level: the race detector samples schedules; a lockset argument covers all of them.",
  "Trusted: go/types + go/ssa, Go memory model edges for mutex/go/WaitGroup. Sound w.r.t. the table; the table's completeness is checked structurally (stored fields), not proved. Not decided: races on host data reached through injected pointers. D12(b)/(c) are NOT claimed to hold.",
  "must-hold lockset dataflow (A5) with guarded-by table + table-completeness check, who-may-write (immutability) analysis, captured-variable write check in goroutine literals, over go/ssa")
+
+claim("C15",
+ "Static ownership / escape analysis of the local-variable store, for all rule sets, schedules and pool requests: exactly one map[string]reflect.Value other than the injected table is allocated, per call, in RuleEntity.Execute; every interpreter function passes on only the store it received; such a value is never stored into a field, package variable, container, channel or interface, nor returned; locals are read and written only after the injected table missed the same key, and only Add/PluginLoader/Del write the injected table; every rule of a call runs against the call's own data context. Right level: 'never visible to another execution' is an escape property of one value, decidable from who can hold a reference.",
+ "Trusted: go/types + go/ssa. Sound modulo reflect/unsafe use by injected host functions. Goroutines of conc blocks that capture the store are joined (C18).",
+ "allocation-site, parameter-threading and escape (who-may-store) analysis over go/ssa; guard analysis of name resolution order")
